@@ -27,7 +27,7 @@ def run(ctx):
     else:
         # measured (one process): codemem/2 threads bound 4 = 98 k schedules, emulate/2 bound 4 = 33 k, once/2 bound 4 = 12 k;
         # 3 threads at bound 3 exceed 10^5 schedules for once/codemem/emulate and are left to bound 2
-        deep = {"init": (6, 4), "run": (6, 4), "once": (5, 2), "codemem": (4, 2), "emulate": (4, 2)}
+        deep = {"init": (8, 5), "run": (8, 5), "once": (6, 3), "codemem": (5, 2), "emulate": (5, 2)}
         cfgs = [(s, 2, deep[s][0]) for s in SCEN] + [(s, 3, deep[s][1]) for s in SCEN]
     res = vlib.Results()
     # lower bounds first (each engine run iterates 0..bound when unpartitioned); the top bound is split into parts
